@@ -1105,7 +1105,10 @@ def match_histories(H0, H1):
     even without migration: three_pops on the same density with axes reversed differs by 1e-2 for a random density)"""
     if [e[0] for e in H0] != [e[0] for e in H1]:
         return False, False, 'event sequences differ: %s vs %s' % ([e[0] for e in H0], [e[0] for e in H1])
-    why = ['']
+    why = [(-1, '')]
+    def setwhy(k, msg):
+        if k > why[0][0]:
+            why[0] = (k, msg)
     def dmatch(d0, d1, m, cmpv):
         if len(d0) != len(d1):
             return False
@@ -1121,18 +1124,18 @@ def match_histories(H0, H1):
         t = e0[0]
         if t == 'init':
             if not close(e0[2], e1[2]):
-                why[0] = 'initial size %r vs %r' % (e0[2], e1[2]); return False, False
+                setwhy(k, 'initial size %r vs %r' % (e0[2], e1[2])); return False, False
             return go(k + 1, {**m, e0[1]: e1[1]}, same)
         if t == 'int':
             okk = close(e0[1], e1[1]) and e0[6] == e1[6] and dmatch(e0[2], e1[2], m, lambda u, v: all(close(x, y) for x, y in zip(u, v))) \
                 and dmatch(e0[3], e1[3], m, close) and dmatch(e0[4], e1[4], m, lambda u, v: u == v)
             if not okk:
-                why[0] = 'integration %d differs under the relabelling (T %r vs %r)' % (k, e0[1], e1[1]); return False, False
+                setwhy(k, 'integration %d differs under the relabelling (T %r vs %r)' % (k, e0[1], e1[1])); return False, False
             s2 = same and [m[x] for x in e0[5]] == e1[5]
             return go(k + 1, m, s2)
         if t == 'split':
             if m.get(e0[1]) != e1[1]:
-                why[0] = 'event %d: another population is split' % k; return False, False
+                setwhy(k, 'event %d: another population is split' % k); return False, False
             for c in (e1[2], e1[2][::-1]):
                 r = go(k + 1, {**m, e0[2][0]: c[0], e0[2][1]: c[1]}, same)
                 if r[0]:
@@ -1140,23 +1143,23 @@ def match_histories(H0, H1):
             return False, False
         if t == 'admix':
             if not dmatch(e0[1], e1[1], m, close):
-                why[0] = 'event %d: admixture proportions differ' % k; return False, False
+                setwhy(k, 'event %d: admixture proportions differ' % k); return False, False
             return go(k + 1, {**m, e0[2]: e1[2]}, same)
         if t == 'pulse':
             if m.get(e0[1]) != e1[1] or not dmatch(e0[2], e1[2], m, close):
-                why[0] = 'event %d: pulse differs' % k; return False, False
+                setwhy(k, 'event %d: pulse differs' % k); return False, False
             return go(k + 1, m, same)
         if t == 'remove':
             if m.get(e0[1]) != e1[1]:
-                why[0] = 'event %d: another population is removed' % k; return False, False
+                setwhy(k, 'event %d: another population is removed' % k); return False, False
             return go(k + 1, m, same)
         if t == 'final':
             if tuple(m.get(x) for x in e0[1]) != e1[1] or e0[2] != e1[2]:
-                why[0] = 'final order of the populations differs'; return False, False
+                setwhy(k, 'final order of the populations differs'); return False, False
             return go(k + 1, m, same)
         return False, False
     ok, same = go(0, {}, True)
-    return ok, same, '' if ok else why[0]
+    return ok, same, '' if ok else why[0][1]
 
 def export_phase(ctx, progs, pulses_bad, pnu):
     rng = ctx.rng
